@@ -143,10 +143,17 @@ func c04Targets(c *h.Ctx, r *rand.Rand) []*c04Target {
 	}
 	// packet-level entry points, seeded with packets built by the API
 	var pseeds [][]byte
-	for len(pseeds) < c.Pick(12, 40) {
+	nFull := 0 // Data packets that carry every optional MetaInfo field (FinalBlockId holds a nested component)
+	for tries := 0; len(pseeds) < c.Pick(12, 40); tries++ {
 		cs := pkt.Gen(r)
 		if len(cs.PayloadBytes()) > 600 || cs.Name.EncodingLength() > 600 {
 			continue
+		}
+		if nFull < 3 && tries < 2000 {
+			if cs.Kind != "data" || cs.DCfg.FinalBlockID == nil || cs.DCfg.Freshness == nil {
+				continue
+			}
+			nFull++
 		}
 		var bl *pkt.Built
 		var err error
@@ -193,6 +200,12 @@ func c04Targets(c *h.Ctx, r *rand.Rand) []*c04Target {
 				_ = d.Content().Join()
 				_ = d.Signature().SigValue()
 				_, _ = d.Signature().Validity()
+				// what a consumer reads from a decoded Data (the segment fetcher reads the final block id)
+				_ = d.FinalBlockID()
+				_ = d.ContentType()
+				_ = d.Freshness()
+				_ = d.Signature().KeyName()
+				_ = d.Signature().SigTime()
 			}
 		}},
 		&c04Target{name: "ReadInterest", seeds: pseeds, call: func(rd enc.ParseReader) {
@@ -203,6 +216,11 @@ func c04Targets(c *h.Ctx, r *rand.Rand) []*c04Target {
 				_ = i.AppParam().Join()
 				_ = i.Signature().SigValue()
 				_ = i.Signature().SigTime()
+				_ = i.Signature().KeyName()
+				_ = i.ForwardingHint()
+				_ = i.Lifetime()
+				_ = i.HopLimit()
+				_ = i.Nonce()
 			}
 		}},
 	)
@@ -255,6 +273,24 @@ func c04Run(c *h.Ctx) {
 				continue
 			}
 			nodes := gen.Nodes(seed)
+			if strings.HasPrefix(t.name, "Read") && len(seed) > 0 && len(seed) < 1500 {
+				// enumerated, not sampled: every element once with a damaged nested element inside a
+				// consistent outer encoding (what an accessor decodes later, e.g. FinalBlockId)
+				for vi, in := range gen.InnerDamage(seed, nodes) {
+					id := fmt.Sprintf("A/%s/%d/inner%d", t.name, si, vi)
+					if !c.Case(id) {
+						continue
+					}
+					in := in
+					hexIn := func() string { return h.HexFull(in) }
+					cp := append([]byte{}, in...)
+					st.guarded(id, t.name, "buffer", "c-inner-damaged", len(in), hexIn, func() { t.call(enc.NewBufferReader(cp)) })
+					w := c04Segment(c.Rng(id), in)
+					st.guarded(id, t.name, "wire", "c-inner-damaged", len(in), hexIn, func() { t.call(enc.NewWireReader(w)) })
+					c.Count("inner_damage_inputs", 1)
+				}
+				c.Distinct("A|" + t.name + "|c-inner-damaged-enumerated")
+			}
 			for k := 0; k < nMut; k++ {
 				id := fmt.Sprintf("A/%s/%d/%d", t.name, si, k)
 				if !c.Case(id) {
